@@ -18,7 +18,7 @@ import xarray as xr
 
 from . import core, worlds
 from .dasksim import POLICIES, DeterministicUUID, SimScheduler
-from .eng_c06 import gen_schedules
+from .eng_c06 import _with_watch, gen_schedules
 
 
 # ------------------------------------------------------------------ poison
@@ -595,7 +595,7 @@ def run_grid(spec, cnt, prop, feat):
                     with dask.config.set(scheduler="synchronous"):
                         got = lazy.compute()
                 else:
-                    sim = SimScheduler(seed=sc["seed"], policy=sc["policy"], faults=sc.get("faults"))
+                    sim = SimScheduler(seed=sc["seed"], policy=sc["policy"], faults=_with_watch(sc.get("faults")))
                     cfg = {"scheduler": sim}
                     if not sc.get("fuse", True):
                         cfg["optimization.fuse.active"] = False
